@@ -1060,6 +1060,9 @@ func (e *c04Env) runCase(cs *c04Case, base *c04Base) (*c04Obs, error) {
 }
 
 func c04Run(c *Ctx) {
+	if c.Shards > 1 && c.Shard == c.Shards-1 || c.Shards <= 1 {
+		c04ExpirySequence(c)
+	}
 	units, info := c04Units(c.Quick())
 	c.Info["alphabet"] = info
 	e := c04NewEnv(c)
